@@ -103,6 +103,10 @@ class C03(GenCheck):
         decls, values = [], {}
         for k in range(nvars):
             fmt = rng.choice(exprs.FMTS)
+            if rng.random() < 0.2:
+                # a variable declared with an explicit byte order (its value is the same, its bytes in memory differ): compared with
+                # other variables and with constants too wide for an immediate, both operands need a scratch register
+                fmt = rng.choice("<>!") + fmt
             decls.append((f"v{k}", rng.choice(["local", "array"]), fmt))
             values[f"v{k}"] = exprs.rand_value(rng, fmt)
         for k in range(rng.choice([0, 0, 1, 2])):
